@@ -64,7 +64,7 @@ func yamlQuoteMergeStrings(node *yaml.Node) {
 	}
 }
 
-var yamlRE = regexp.MustCompile(`(?m)^---$`)
+var yamlRE = regexp.MustCompile(`(?m)^---[ \t]*(?:#.*)?\r?$`)
 
 func yamlUnmarshalStream(in []byte) ([]any, error) {
 	// Differs from repeated yaml.Decode by treating "---\n---" as an empty
